@@ -77,7 +77,11 @@ def gen(kind, dim=2):
     return Rec("CubicMeshPDENonStatio", f)
 
 
-def loss_of(kind):
+def loss_of(kind, system=False):
+    if system:
+        cls = "SystemLossODE" if kind == "ODE" else "SystemLossPDE"
+        return Rec(cls, dict(u_dict={"u": Rec("PINN", {}), "v": Rec("PINN", {})},
+                             dynamic_loss_dict={"e1": Rec("DynamicLoss", {}), "e2": Rec("DynamicLoss", {})}, u=Rec("PINN", {})))
     cls = {"ODE": "LossODE", "statio": "LossPDEStatio", "nonstatio": "LossPDENonStatio"}[kind]
     return Rec(cls, dict(u=Rec("PINN", {}), dynamic_loss=Rec("DynamicLoss", {})))
 
@@ -221,7 +225,7 @@ def loop_contract(p_before, first, size, stride, value):
     return mk
 
 
-def run_step_true(kind, dim=2):
+def run_step_true(kind, dim=2, system=False):
     ex = executor()
     data = gen(kind, dim)
     mt, mx = nt0 + J * selt, n0 + J * selx
@@ -242,7 +246,7 @@ def run_step_true(kind, dim=2):
             lambda lo, hi, init: (lambda i: SArr(init.shape, lambda k: z3.If(
                 z3.And(zint(k) >= n0, zint(k) < n0 + zint(i) * selx), 1 / zreal(n0 + J * selx), zreal(init.elem(k))), "real"))]
     f_true, _ = closures(ex, kind)
-    (res,) = ex.apply(f_true, [(loss_of(kind), Rec("Params", {}), data, it)], {}, [])
+    (res,) = ex.apply(f_true, [(loss_of(kind, system), Rec("Params", {}), data, it)], {}, [])
     d2, pc = res
     return ex, data, d2, pc, mt, mx
 
@@ -633,6 +637,66 @@ def obligations(tier, only=None):
     return obs
 
 
+def ob_step_true_system(kind):
+    """the same step with a system loss (sum over the equations of the system): it must run and keep the bookkeeping / frame clauses"""
+    name = f"C17/rar_step_true/ensures.step_with_a_system_loss[{kind}]"
+    def run(seed):
+        t0 = time.time()
+        try:
+            ex, data, d2, pc, mt, mx = run_step_true(kind, system=True)
+        except pyvc.PyRaise as e:
+            nat = native_system_statio() if kind == "statio" else None
+            return dict(status="violated", failure="raises", backend="pyvc",
+                        detail=f"rar_step_true raises {e.exc_name} with a system loss on a {kind} generator: {e.msg}",
+                        replay=dict(native_disagrees=bool(nat), native=nat or "not replayed natively",
+                                    solver_output=f"symbolic execution reached an unbound local: {e.msg}", expected="a refinement step"))
+        T, X = kind in ("ODE", "nonstatio"), kind in ("statio", "nonstatio")
+        pre = BASE_PRE + list(pc) + [k_ >= 0] + ([mt + selt <= nt] if T else []) + ([mx + selx <= n] if X else [])
+        goals = [("steps_incremented", zint(d2.fields["rar_iter_nb"]) == J + 1)]
+        if T:
+            goals += [("time_active", z3.Implies(k_ < nt, (zreal(d2.fields["p_times"].elem(k_)) != 0) == (k_ < mt + selt))),
+                      ("time_kept", z3.Implies(k_ < mt, d2.fields["times"].elem(k_) == data.fields["times"].elem(k_)))]
+        if X:
+            goals += [("space_active", z3.Implies(k_ < n, (zreal(d2.fields["p_omega"].elem(k_)) != 0) == (k_ < mx + selx))),
+                      ("space_kept", z3.Implies(k_ < mx, d2.fields["omega"].elem(k_, 0) == data.fields["omega"].elem(k_, 0)))]
+        return result(name, goals, pre, ex, t0)
+    return FnObligation(name, run, [RAR + "_rar_step_init.rar_step_true"])
+
+
+def native_system_statio():
+    import jax, warnings
+    import jax.numpy as jnp
+    import equinox as eqx
+    from jinns.solver._rar import init_rar, trigger_rar
+    from jinns.data._DataGenerators import CubicMeshPDEStatio
+    from jinns.loss import SystemLossPDE, PDEStatio, LossWeightsPDEDict
+    from jinns.parameters import ParamsDict
+    from jinns.utils._pinn import PINN
+
+    class Dyn(PDEStatio):
+        def equation(self, x, u_dict, params_dict):
+            return jnp.sin(5.0 * x[0:1]) + u_dict["u"](x, params_dict.extract_params("u"))
+
+    class M(eqx.Module):
+        w: jax.Array
+        def __call__(self, x):
+            return jnp.sum(self.w * x)[None]
+    u = PINN(mlp=M(jnp.ones(2)), slice_solution=jnp.s_[0:1], eq_type="statio_PDE", input_transform=lambda i, p: i, output_transform=lambda i, o, p: o)
+    pd = ParamsDict(nn_params={"u": u.params}, eq_params={})
+    with warnings.catch_warnings():
+        warnings.simplefilter("ignore")
+        loss = SystemLossPDE(u_dict={"u": u}, dynamic_loss_dict={"e": Dyn()}, loss_weights=LossWeightsPDEDict(), params_dict=pd)
+    rp = {"start_iter": 0, "update_every": 1, "sample_size_omega": 4, "selected_sample_size_omega": 2}
+    g = CubicMeshPDEStatio(key=jax.random.PRNGKey(0), n=10, nb=None, omega_batch_size=2, omega_border_batch_size=None, dim=2,
+                           min_pts=(0.0, 0.0), max_pts=(1.0, 1.0), rar_parameters=rp, n_start=4)
+    g, ft, ff = init_rar(g)
+    try:
+        trigger_rar(0, loss, pd, g, ft, ff)
+    except Exception as e:
+        return [f"trigger_rar on a stationary generator with a SystemLossPDE raises {type(e).__name__}: {str(e)[:160]}"]
+    return None
+
+
 def ob_reshuffle_keeps_active_set():
     """C17: a reshuffle drawn with the store's probabilities keeps the active prefix a permutation of itself
     (lemma over the assumed contract of jax.random.choice: rows with p == 0 come after every row with p > 0;
@@ -668,6 +732,8 @@ def c17_obligations(tier):
         for cl in C17_CLAUSES:
             obs.append(ob_step_true(kind, cl))
     obs.append(ob_reshuffle_keeps_active_set())
+    for kind in ("ODE", "statio", "nonstatio"):
+        obs.append(ob_step_true_system(kind))
     # the reshuffle of a RAR store is drawn with the store's probability vector (C09 step contract, restated)
     from contracts import c09
     for which in ("DataGeneratorODE.temporal_batch", "CubicMeshPDENonStatio.temporal_batch", "CubicMeshPDEStatio.inside_batch[dim=1]"):
